@@ -3,6 +3,7 @@ package c05
 import (
 	"fmt"
 	"math"
+	"strings"
 
 	"github.com/golang/geo/s1"
 	"github.com/golang/geo/s2"
@@ -957,6 +958,9 @@ type floodCase struct {
 func (s Spec) connected() bool {
 	switch s.Kind {
 	case "polygon":
+		if strings.HasPrefix(s.Family, "lattice-shells=") {
+			return s.Family == "lattice-shells=1" // one shell, possibly with a hole
+		}
 		return len(s.Rings) <= 2 || s.Full
 	case "cellunion":
 		return false
